@@ -100,11 +100,20 @@ pub struct Invocation {
     pub timeout_s: u64,
     /// sample the child's VmHWM while it runs
     pub sample_rss: bool,
+    /// environment variables whose values are raw bytes (not necessarily UTF-8)
+    pub env_bytes: Vec<(String, Vec<u8>)>,
+    /// a named pipe of the sandbox and the bytes a writer feeds into it once the child has started
+    /// (at most 60000 bytes, so that the writer never blocks)
+    pub fifo: Option<(String, Vec<u8>)>,
+    /// with `fifo`: once everything has been fed and drained - but BEFORE the writer closes the pipe, so
+    /// the child cannot know the input has ended - wait (at most 15 s) until this file of the sandbox
+    /// has reached this size; Finished::grew_before_eof says whether it did
+    pub watch_before_eof: Option<(String, u64)>,
 }
 
 impl Invocation {
     pub fn new(args: &[&str]) -> Invocation {
-        Invocation { args: args.iter().map(|a| a.as_bytes().to_vec()).collect(), env: vec![], stdin: Stdin::Null, stdout: Stdout::Capture, entropy_seed: Some(1), fault_plan: None, timeout_s: 60, sample_rss: false }
+        Invocation { args: args.iter().map(|a| a.as_bytes().to_vec()).collect(), env: vec![], stdin: Stdin::Null, stdout: Stdout::Capture, entropy_seed: Some(1), fault_plan: None, timeout_s: 60, sample_rss: false, env_bytes: vec![], fifo: None, watch_before_eof: None }
     }
     pub fn env(mut self, k: &str, v: &str) -> Self {
         self.env.push((k.to_string(), v.to_string()));
@@ -130,6 +139,8 @@ pub struct Finished {
     /// /proc/<pid>/status VmHWM while it runs (only when Invocation::sample_rss); 0 if unknown.
     /// wait4's ru_maxrss is useless here: it includes the forked copy of the simulator before exec.
     pub max_rss_kib: i64,
+    /// see Invocation::watch_before_eof (None when not asked for)
+    pub grew_before_eof: Option<(bool, u64)>,
 }
 
 impl Finished {
@@ -181,6 +192,27 @@ pub fn run(sb: &Sandbox, inv: &Invocation) -> Finished {
     for (k, v) in &inv.env {
         cmd.env(k, v);
     }
+    for (k, v) in &inv.env_bytes {
+        cmd.env(k, std::ffi::OsStr::from_bytes(v));
+    }
+    // a FIFO: the harness holds it open for reading and writing (so that neither side ever blocks on
+    // open), puts the data in, and closes its descriptors once the child has drained the pipe or exited
+    let mut fifo_fds: Option<(i32, i32)> = None;
+    let mut fifo_fed: usize = 0;
+    if let Some((name, data)) = &inv.fifo {
+        let path = std::ffi::CString::new(sb.dir.join(name).to_string_lossy().as_bytes()).unwrap();
+        unsafe {
+            libc::mkfifo(path.as_ptr(), 0o600);
+            let keep = libc::open(path.as_ptr(), libc::O_RDWR | libc::O_CLOEXEC);
+            let w = libc::open(path.as_ptr(), libc::O_WRONLY | libc::O_NONBLOCK | libc::O_CLOEXEC);
+            if keep >= 0 && w >= 0 {
+                let d = &data[..data.len().min(60000)];
+                let n = libc::write(w, d.as_ptr() as *const libc::c_void, d.len());
+                fifo_fed = if n > 0 { n as usize } else { 0 };
+                fifo_fds = Some((keep, w));
+            }
+        }
+    }
     if let Some(s) = inv.entropy_seed {
         cmd.env("KESTREL_VERIF_ENTROPY_SEED", s.to_string());
     }
@@ -198,7 +230,7 @@ pub fn run(sb: &Sandbox, inv: &Invocation) -> Finished {
             Ok(f) => {
                 cmd.stdin(Stdio::from(f));
             }
-            Err(e) => return Finished { status: Status::SpawnError(format!("stdin file: {}", e)), stdout: vec![], stderr: vec![], shim_log: vec![], max_rss_kib: 0 },
+            Err(e) => return Finished { status: Status::SpawnError(format!("stdin file: {}", e)), stdout: vec![], stderr: vec![], shim_log: vec![], max_rss_kib: 0, grew_before_eof: None },
         },
         Stdin::Pipe(_) => {
             cmd.stdin(Stdio::piped());
@@ -223,7 +255,7 @@ pub fn run(sb: &Sandbox, inv: &Invocation) -> Finished {
             let (mut m, mut sl) = (0i32, 0i32);
             let rc = unsafe { libc::openpty(&mut m, &mut sl, std::ptr::null_mut(), std::ptr::null_mut(), std::ptr::null_mut()) };
             if rc != 0 {
-                return Finished { status: Status::SpawnError("openpty failed".into()), stdout: vec![], stderr: vec![], shim_log: vec![], max_rss_kib: 0 };
+                return Finished { status: Status::SpawnError("openpty failed".into()), stdout: vec![], stderr: vec![], shim_log: vec![], max_rss_kib: 0, grew_before_eof: None };
             }
             unsafe {
                 libc::fcntl(m, libc::F_SETFD, libc::FD_CLOEXEC);
@@ -308,10 +340,51 @@ pub fn run(sb: &Sandbox, inv: &Invocation) -> Finished {
     let deadline = std::time::Instant::now() + std::time::Duration::from_secs(inv.timeout_s);
     let pid = child.id() as i32;
     let mut max_rss_kib = 0i64;
+    let mut grew_before_eof: Option<(bool, u64)> = None;
     // wait4 instead of Child::try_wait: it also returns the child's resource usage
     let status = loop {
         let mut st: i32 = 0;
         let mut ru: libc::rusage = unsafe { std::mem::zeroed() };
+        if let (Some((_, w)), Some((_, data))) = (fifo_fds, &inv.fifo) {
+            // keep feeding (non-blocking) while data remains
+            while fifo_fed < data.len() {
+                let d = &data[fifo_fed..(fifo_fed + 65536).min(data.len())];
+                let n = unsafe { libc::write(w, d.as_ptr() as *const libc::c_void, d.len()) };
+                if n <= 0 {
+                    break;
+                }
+                fifo_fed += n as usize;
+            }
+        }
+        if let Some((keep, w)) = fifo_fds {
+            // once the pipe is empty the child has everything: closing both descriptors gives it EOF
+            let mut pending: libc::c_int = 0;
+            unsafe { libc::ioctl(keep, libc::FIONREAD, &mut pending) };
+            let all_fed = inv.fifo.as_ref().map(|(_, d)| fifo_fed >= d.len()).unwrap_or(true);
+            if pending == 0 && all_fed {
+                if let (Some((name, min)), None) = (&inv.watch_before_eof, grew_before_eof) {
+                    // the child has taken all input but cannot know it is the end: what it has produced
+                    // so far must already be (nearly) everything
+                    let t0 = std::time::Instant::now();
+                    let mut size = 0u64;
+                    let mut ok = false;
+                    while t0.elapsed().as_secs() < 15 {
+                        size = std::fs::metadata(sb.dir.join(name)).map(|m| m.len()).unwrap_or(0);
+                        if size >= *min {
+                            ok = true;
+                            break;
+                        }
+                        std::thread::sleep(std::time::Duration::from_millis(5));
+                    }
+                    grew_before_eof = Some((ok, size));
+                }
+                unsafe {
+                    libc::close(w);
+                    libc::close(keep);
+                }
+                fifo_fds = None;
+            }
+        }
         if inv.sample_rss {
             if let Ok(t) = std::fs::read_to_string(format!("/proc/{}/status", pid)) {
                 if let Some(l) = t.lines().find(|l| l.starts_with("VmHWM:")) {
@@ -343,13 +416,19 @@ pub fn run(sb: &Sandbox, inv: &Invocation) -> Finished {
             break Status::SpawnError(format!("wait4: {}", std::io::Error::last_os_error()));
         }
     };
+    if let Some((keep, w)) = fifo_fds {
+        unsafe {
+            libc::close(w);
+            libc::close(keep);
+        }
+    }
     // the child has been reaped here; do not let Child try again
     std::mem::forget(child);
     let stdout = t_out.join().unwrap_or_default();
     let stderr = t_err.join().unwrap_or_default();
     let shim_log = std::fs::read(&shim_log_path).unwrap_or_default();
     let _ = std::fs::remove_file(&shim_log_path);
-    Finished { status, stdout, stderr, shim_log, max_rss_kib }
+    Finished { status, stdout, stderr, shim_log, max_rss_kib, grew_before_eof }
 }
 
 /// Read a child's output to its end but keep at most 64 MiB of it (a child that prints in an endless
